@@ -79,6 +79,19 @@ def _impl(tier, seed, search):
             so(f'rot{ax}', lambda: getattr(b, 'rot' + ax)(thu, unit), inp)
             se(f'trot{ax}', lambda: getattr(b, 'trot' + ax)(thu, unit, t=t3), dict(inp, t=t3))
         so('rot2', lambda: b.rot2(thu, unit), inp); se('trot2', lambda: b.trot2(thu, unit, t=t2), dict(inp, t=t2))
+        # the same with the scalar angle held in a narrower NumPy type (the result is still a double-precision member)
+        if i % 4 == 0:
+            for tn_, ty_ in (('float32', np.float32), ('int64', np.int64)):
+                try: thn = ty_(thu if tn_ != 'int64' else round(thu) % 7)
+                except Exception: continue
+                if not np.isfinite(float(thn)): continue
+                inpn = dict(theta=float(thn), unit=unit, dtype=tn_)
+                for ax in 'xyz':
+                    so(f'rot{ax}({tn_})', lambda: getattr(b, 'rot' + ax)(thn, unit), inpn); se(f'trot{ax}({tn_})', lambda: getattr(b, 'trot' + ax)(thn, unit, t=t3), inpn)
+                so(f'rot2({tn_})', lambda: b.rot2(thn, unit), inpn); se(f'trot2({tn_})', lambda: b.trot2(thn, unit, t=t2), inpn)
+                so(f'rpy2r(scalars,{tn_})', lambda: b.rpy2r(thn, thn, thn, unit=unit), inpn); so(f'eul2r(scalars,{tn_})', lambda: b.eul2r(thn, thn, thn, unit=unit), inpn)
+                valid_obj(f'SO2({tn_})', lambda: SO2(thn, unit=unit), inpn); valid_obj(f'SE2({tn_})', lambda: SE2(1.0, 2.0, thn, unit=unit), inpn)
+                valid_obj(f'SO3.Rx({tn_})', lambda: SO3.Rx(thn, unit) * SO3.Ry(thn, unit), inpn); valid_obj(f'SE3.Rz({tn_})', lambda: SE3.Rz(thn, unit), inpn); valid_obj(f'UQ.Rx({tn_})', lambda: UnitQuaternion.Rx(thn, unit), inpn)
         ang = np.array([geom.big_angle(g) for _ in range(3)]); angu = ang if unit == 'rad' else np.degrees(ang)
         o = ORD[i % 6]
         so('rpy2r', lambda: b.rpy2r(angu, order=o, unit=unit), dict(angles=angu, order=o, unit=unit))
